@@ -92,23 +92,63 @@ def macro_def(src, name):
     return body[p0 + 1:p1].strip(), body[x0 + 1:x1], (i, e + 1)
 
 
+AUTO_SETTERS = {}
+
+
 def expand_builders(src, util_src, counts):
+    """expand the four builder macros; each expanded method gets placeholder comments (invisible to the
+    token merge) that add_auto() later turns into the generated contract for that invocation"""
+    targets = dict(re.findall(r'pub struct (\w+)\((\w+)\);', src))
+    private = set()
+    for sm in re.finditer(r'pub struct (\w+) \{', src):
+        body = src[sm.end():match_brace(src, sm.end() - 1)]
+        for ln in body.split('\n'):
+            ln = ln.strip()
+            if ln and not ln.startswith('//') and not ln.startswith('#') and not ln.startswith('pub ') and re.match(r'\w+\s*:', ln):
+                private.add(sm.group(1))
+    setters = {}
     for name in ['builder_set_protected', 'builder_set_optional', 'builder_set', 'builder']:
         pat, exp, _ = macro_def(util_src, name)
-
-        def rep(m, name=name, exp=exp):
+        res = []
+        pos = 0
+        for m in re.finditer(r'\b' + name + r'!\s*\{([^}]*)\}', src):
             counts['R5'] += 1
+            impls = re.findall(r'\bimpl (\w+) \{', src[:m.start()])
+            b = impls[-1] if impls else '?'
+            t_ = targets.get(b, '?')
             arg = m.group(1).strip()
             t = exp
             if name == 'builder':
                 t = t.replace('$otype', arg)
+                t = t.replace('pub fn new() -> Self {', 'pub fn new() ->/*@A:ro*/ Self/*@A:new:%s:%s:_*/ {' % (b, t_), 1)
+                t = re.sub(r'pub fn build\(self\) -> ([^{]+?) \{', lambda mm: 'pub fn build(self) ->/*@A:ro*/ %s/*@A:build:%s:%s:_*/ {' % (mm.group(1), b, t_), t, count=1)
             elif name == 'builder_set_protected':
                 t = t.replace('$name', arg).replace('$crate', 'crate')
+                kind = 'prot'
+                if t_ in private:
+                    setters.setdefault(b, []).append((kind, arg, 'crate::Header'))
+                    kind = 'cprot'
+                t = t.replace(' -> Self {', ' ->/*@A:ro*/ Self/*@A:%s:%s:%s:%s*/ {' % (kind, b, t_, arg), 1)
             else:
                 n, ty = arg.split(':', 1)
                 t = t.replace('$name', n.strip()).replace('$ftype', ty.strip())
-            return t
-        src = re.sub(r'\b' + name + r'!\s*\{([^}]*)\}', rep, src)
+                kind = 'set' if name == 'builder_set' else 'opt'
+                if t_ in private:
+                    setters.setdefault(b, []).append((kind, n.strip(), ty.strip()))
+                    kind = 'c' + kind
+                t = t.replace(' -> Self {', ' ->/*@A:ro*/ Self/*@A:%s:%s:%s:%s*/ {' % (kind, b, t_, n.strip()), 1)
+            res.append(src[pos:m.start()])
+            res.append(t)
+            pos = m.end()
+        res.append(src[pos:])
+        src = ''.join(res)
+    # inner() accessor for every builder newtype
+    def inner(mm):
+        b, t_ = mm.group(2), mm.group(3)
+        extra = ''.join('_%s_%s_%s' % (k, n, re.sub(r'\W', 'Q', ty)) for k, n, ty in setters.get(b, []))
+        AUTO_SETTERS[b] = setters.get(b, [])
+        return mm.group(1) + '/*@A:inner:%s:%s:_*/' % (b, t_)
+    src = re.sub(r'(pub struct (\w+)\((\w+)\);)', inner, src)
     return src
 
 
@@ -428,6 +468,7 @@ def strip_generated(text):
     """remove inserted regions and AUTO placeholders from generated text"""
     text = re.sub(re.escape(GOPEN) + r'.*?' + re.escape(GCLOSE), '', text, flags=re.S)
     text = re.sub(r'/\*@AUTO:[A-Za-z_:0-9]*\*/', '', text)
+    text = re.sub(r'/\*@A:[A-Za-z_:0-9?]*\*/', '', text)
     return text
 
 
@@ -438,6 +479,36 @@ def add_auto(text, registries):
     def rep(m):
         return GOPEN + iana_spec_text(m.group(1), regs[m.group(1)]) + GCLOSE
     text = re.sub(r'/\*@AUTO:iana_spec:([A-Za-z0-9_]+)\*/', rep, text)
+
+    def rep2(m):
+        kind, b, t, n = m.group(1), m.group(2), m.group(3), m.group(4)
+        if kind == 'ro':
+            return GOPEN + ' (r:' + GCLOSE
+        if kind == 'inner':
+            fns = ''
+            for k2, n2, ty2 in AUTO_SETTERS.get(b, []):
+                val = {'set': n2, 'opt': 'Some(%s)' % n2, 'prot': 'crate::ProtectedHeader { original_data: None, header: %s }' % n2}[k2]
+                fns += '\n    pub closed spec fn after_%s(self, %s: %s) -> %s { %s { %s: %s, ..self.0 } }' % (n2, n2, ty2, t, t, n2, val)
+            return GOPEN + '\nimpl %s { pub closed spec fn inner(self) -> %s { self.0 }%s }' % (b, t, fns) + GCLOSE
+        if kind == 'new':
+            body = 'r.inner().is_default()'
+        elif kind == 'build':
+            body = 'r == self.inner()'
+        elif kind == 'set':
+            body = 'r.inner() == (%s { %s: %s, ..self.inner() })' % (t, n, n)
+        elif kind == 'opt':
+            body = 'r.inner() == (%s { %s: Some(%s), ..self.inner() })' % (t, n, n)
+        elif kind in ('cset', 'copt'):
+            body = 'r.inner() == self.after_%s(%s)' % (n, n)
+        elif kind == 'cprot':
+            body = 'r.inner() == self.after_%s(hdr)' % n
+        elif kind == 'prot':
+            body = 'r.inner() == (%s { %s: crate::ProtectedHeader { original_data: None, header: hdr }, ..self.inner() })' % (t, n)
+        else:
+            raise ExtractError('unknown auto contract ' + kind)
+        return GOPEN + ')\n            ensures ' + body + GCLOSE
+    text = re.sub(r'/\*@A:(ro)\*/', lambda m: GOPEN + ' (r:' + GCLOSE, text)
+    text = re.sub(r'/\*@A:([a-z]+):([A-Za-z0-9_?]+):([A-Za-z0-9_?]+):([A-Za-z0-9_]+)\*/', rep2, text)
     parts = re.split(r'(impl(?:<[^>]*>)? AsCborValue for [^{]+\{)', text)
     out = [parts[0]]
     for k in range(1, len(parts), 2):
